@@ -124,6 +124,9 @@ class Framing(Harness):
             if ok:
                 obl.append((f"pkt{i} slice", z3.And(pkt.off == offs[i], pkt.length == 6 + Ls[i])))
         inputs = {"k": lia.LInt(k), **{f"L{i}": lia.LInt(Ls[i]) for i in range(P)}}
+        # the first four header bytes of every record as the path constrains them (any header values: version, type, flags, APID, sequence)
+        for i in range(P):
+            inputs[f"hdr{i}"] = [lia.LInt(lia.sel(offs[i] + j)) for j in range(4)]
         if r is not None:
             inputs["r"] = lia.LInt(r)
         if kind == "socket":
@@ -159,7 +162,13 @@ class Arbitrary(Harness):
         ctx.assume(z3.And(T >= 0, T <= 2 ** 31))
         kk = p.get("k", 0)
         kwargs = {}
-        if kk:
+        ksym = None
+        if kk == "sym":        # a record prefix of symbolic length (up to 32 MiB: the cursor can pass the 20 MB buffer-trim mark)
+            ksym = z3.Int("k")
+            ctx.assume(z3.And(ksym >= 0, ksym <= 2 ** 25))
+            kk = ksym
+            kwargs["skip_header_bytes"] = lia.LInt(ksym)
+        elif kk:
             kwargs["skip_header_bytes"] = kk
         r = None
         if kind != "bytes" and p["rmode"] == "sym":
@@ -200,6 +209,8 @@ class Arbitrary(Harness):
             obl.append(("remainder shorter than a packet", z3.Or(rem < kk + 6, rem < kk + 7 + lia.sel(o + kk + 4) * 256 + lia.sel(o + kk + 5))))
         obl.append(("no internal error escapes", not end.startswith("exc")))
         inputs = {"T": lia.LInt(T)}
+        if ksym is not None:
+            inputs["k"] = lia.LInt(ksym)
         if r is not None:
             inputs["r"] = lia.LInt(r)
         if kind == "socket":
@@ -334,7 +345,8 @@ def build_wellformed(i, P):
     for j in range(P):
         L = i[f"L{j}"]
         pre = filler(k)
-        hdr = bytes([0x08 + (j & 7), 0x21 + j, 0xC0, j & 0xFF]) + (L - 1).to_bytes(2, "big")
+        h4 = i.get(f"hdr{j}") or [0x08 + (j & 7), 0x21 + j, 0xC0, j & 0xFF]
+        hdr = bytes(int(x) & 0xFF for x in h4) + (L - 1).to_bytes(2, "big")
         body = filler(L)
         parts += [pre, hdr, body]
         offs.append([pos + k, 6 + L])
@@ -401,7 +413,7 @@ def concrete(req):
         if 0 <= int(idx) < len(data):
             data[int(idx)] = v
     data = bytes(data)
-    k = p.get("k", 0)
+    k = i["k"] if p.get("k") == "sym" else p.get("k", 0)
     if k:
         kwargs["skip_header_bytes"] = k
     out, end = run_real(data, p["kind"], kwargs, i.get("chunks"), True, p["NP"], p.get("via_def"))
@@ -425,7 +437,7 @@ def judge(req, got):
     for idx, v in i["cells"].items():
         if 0 <= int(idx) < len(data):
             data[int(idx)] = v
-    k = p.get("k", 0)
+    k = i["k"] if p.get("k") == "sym" else p.get("k", 0)
     want, o = [], 0
     while True:
         if len(data) - o < k + 6:
@@ -441,7 +453,7 @@ def judge(req, got):
     else:
         want_cut, want_end = want, "stop"
     if got["packets"][:lim] != want_cut or got["end"] != want_end:
-        return "reproduced", (f"{p['kind']} source of {i['T']} bytes (read size {i.get('r', 'default')}): expected complete packets {want_cut} then "
+        return "reproduced", (f"{p['kind']} source of {i['T']} bytes (read size {i.get('r', 'default')}, record prefix {k}): expected complete packets {want_cut} then "
                               f"{want_end}, got {got['packets'][:lim]} then {got['end']}")
     return "not-reproduced", "yields are exactly the complete packets"
 
